@@ -135,7 +135,7 @@ def cfg(pid, tier):
             sl("topup", 300 if q else 3000, MaxSteps=4 if q else 5, TopUps=S(6), TrigSets=S("none", "final"),
                **dict(wb, AcctChoices=S((5, 1), (0, 3)))),
             sl("mixed", 400 if q else 4000, MaxSteps=4 if q else 5, TopUps=S(), TrigSets=S("none", "final"), Recharges=False,
-               ContShapes=S("on_on", "on_off"), **dict(wb, AcctChoices=S((7, 2), (40, 1)), Vols=S(0, 2), Reqs=S(4))),
+               ContShapes=S("on_on", "on_off"), **dict(wb, AcctChoices=S((10, 1), (21, 2)), Vols=S(0, 2), Reqs=S(4))),
         ]
     elif pid == "C12":
         base = dict(BadRefs=True, Reqs=S(4), Vols=S(3), TopUps=S(), AcctChoices=S((9, 1)), Limit=6,
